@@ -110,7 +110,7 @@ pub fn replay_case(c: &J) -> Result<(), String> {
     }
     match c["pipeline"].as_str() {
         Some("LexFold") => check(&f, Pipe::LexFold, s, &expect),
-        Some("LexRoutes") => ops::lexical_routes_agree(&f, s),
+        Some("LexRoutes") => ops::lexical_routes_agree(&f, s, c["reference"].as_str().unwrap_or(s)),
         Some("CharsStripped") => check_chars_stripped(&f, s, &expect),
         _ => check(&f, Pipe::Enum, s, &expect),
     }
@@ -184,6 +184,7 @@ pub fn run(run: &Run) {
             let toks = emit::value(&f, v);
             let expect = v.canon();
             let feats = c01::features(&f, v);
+            let reference = emit::join(&toks, "");
             let mut ss = vec![];
             spacings(&toks, " ", &mut ss);
             if tier == Tier::Thorough && toks.len() <= 14 {
@@ -199,8 +200,8 @@ pub fn run(run: &Run) {
                             // the other public routes into the lexical parser (free functions, the
                             // term-only entry) must treat the same spacing the same way
                             run.eval(1);
-                            if let Err(msg) = ops::lexical_routes_agree(&f, s) {
-                                run.violation(&format!("[{}] {}", f.name, msg), json!({"op": "spacing", "format": f.name, "pipeline": "LexRoutes", "input": s, "value": v.to_json()}), &feats);
+                            if let Err(msg) = ops::lexical_routes_agree(&f, s, &reference) {
+                                run.violation(&format!("[{}] {}", f.name, msg), json!({"op": "spacing", "format": f.name, "pipeline": "LexRoutes", "input": s, "reference": reference, "value": v.to_json()}), &feats);
                             }
                         }
                         Ok(()) => {}
@@ -248,8 +249,8 @@ pub fn run(run: &Run) {
                 match check(&f, Pipe::LexFold, &s, &expect) {
                     Err(msg) => run.violation(&format!("[{}] {}", f.name, msg), json!({"op": "spacing", "format": f.name, "pipeline": "LexFold", "input": s, "value": v.to_json()}), &feats),
                     Ok(()) => {
-                        if let Err(msg) = ops::lexical_routes_agree(&f, &s) {
-                            run.violation(&format!("[{}] {}", f.name, msg), json!({"op": "spacing", "format": f.name, "pipeline": "LexRoutes", "input": s, "value": v.to_json()}), &feats);
+                        if let Err(msg) = ops::lexical_routes_agree(&f, &s, &reference) {
+                            run.violation(&format!("[{}] {}", f.name, msg), json!({"op": "spacing", "format": f.name, "pipeline": "LexRoutes", "input": s, "reference": reference, "value": v.to_json()}), &feats);
                         }
                     }
                 }
